@@ -398,6 +398,13 @@ func (jenny RawTypes) maybeValueAsPointer(value string, nullable bool, typeDef a
 // formatDefaultValue formats a default value for a field. Lists are literals of the
 // field's own type: `[]int64{1, 2}`, not `[]string{1, 2}`.
 func (jenny RawTypes) formatDefaultValue(fieldType ast.Type, resolvedFieldType ast.Type, value any) string {
+	// strings with the date-time format are declared as time.Time: their default is a string in the schema
+	if text, isString := value.(string); isString && resolvedFieldType.IsScalar() && resolvedFieldType.HasHint(ast.HintStringFormatDateTime) {
+		jenny.typeFormatter.imports.Add("time", "time")
+
+		return fmt.Sprintf("func() time.Time { parsed, _ := time.Parse(time.RFC3339, %s); return parsed }()", formatScalar(text))
+	}
+
 	items, isList := value.([]any)
 	if !isList || !resolvedFieldType.IsArray() {
 		return formatScalar(value)
